@@ -8,21 +8,29 @@ THEOREMS = [
     "C27_sha256_refuted", "C27_ita_refuted", "C27_filemode_refuted", "C27_staged_delete_refuted",
     "C27_typechange_refuted", "C27_samestat_refuted", "C27_info_exclude_refuted",
     "C27_shortcut_sound_partial", "C27_shortcut_sound_refuted",
+    "C27_ts_compare", "C27_shortcut_sound_ns_partial", "C27_shortcut_seconds_refuted",
+    "C27_walk_flat", "C27_status_eq", "C27_index_tree", "C27_status_eq_entries", "C27_walks_agree_small",
+    "C27_skip_staged_refuted", "C27_skip_dir_untracked_refuted", "C27_skip_names_unrepaired_refuted",
 ]
-MODEL_FILES = ["Status.v"]
-MODELLED = ("worktree_status.go Worktree.status (the fold of the two change lists into the Status map, nameFromAction, "
+MODEL_FILES = ["Status.v", "StatTime.v", "StatusTrie.v", "DiffTree.v", "Gitignore.v"]
+MODELLED = ("worktree_status.go Worktree.status from (HEAD tree, index tree, worktree tree): the three noder trees, the "
+            "merkletrie walk (Model/DiffTree.v recursive merge for the theorems; the two-iterator loop of difftree.go / "
+            "doubleiter.go / iter.go with the Skip() rules of skip-worktree entries for the correspondence, both "
+            "evaluated and compared on every case), mindex.NewRootNode (tree inferred from the entry paths, cross-checked), "
+            "the ignore verdict computed by the C49 model (Model/Gitignore.v: Scope / matcher / wildmatch) from the "
+            ".gitignore files of the case, time stamps with nanoseconds (Model/StatTime.v); and, as before: "
+            "Worktree.status (the fold of the two change lists into the Status map, nameFromAction, "
             "Untracked -> Unmodified promotion), diffTreeIsEquals over the noder hashes of utils/merkletrie/index/node.go "
             "(Hash, upholdExecutableBit) and utils/merkletrie/filesystem/node.go (calculateHash with format.SHA1, "
             "metadataMatches incl. size mod 2^32 and the racy check, shouldSkipIgnored for tracked entries) on flattened "
             "path maps (Model/Status.v); spec: git's porcelain v1 XY records per path (Spec/GitStatus.v); not modelled: "
-            "the merkletrie walk itself (only file-like noders are reported: C44), gitignore pattern matching (C49; the "
-            "verdict per untracked file is an input), submodules, skip-worktree entries (C32), autocrlf hashing (C31), "
+            "submodules, autocrlf hashing (C31), the lazy reading of .gitignore files (resolveScope; the verdict is the same), "
             "rename detection (disabled on the git side)")
 TRUSTED = [
     "C-impl: Worktree.Status on repositories built by harness/porc with the git binary vs Model/Status on every case",
     "oracle: `git status --porcelain=v1 -z --untracked-files=all --ignored=no --no-renames` on the same repository",
     "C-git: Spec/GitStatus vs the same git output on every case (spec_mismatches)",
-    "python gitignore evaluator for the generated pattern grammar (props/porc_gen.py), validated through C-git",
+    "python gitignore evaluator for the generated pattern grammar (props/porc_gen.py): only used to classify failing cases",
 ]
 ASSUMPTIONS = [
     "SHA-1 and SHA-256 object ids are injective on the generated contents (content identity stands for the id)",
@@ -30,36 +38,133 @@ ASSUMPTIONS = [
 ]
 RULE = ("case = flattened (HEAD, index, worktree) maps over a 23-path universe with file/dir conflicts, modes f/x/symlink, "
         "staged and unstaged edits, touches, same-size edits with restored mtime, racy index time, intent-to-add entries, "
-        "nested .gitignore / info/exclude, empty directories, core.fileMode, object format; non-trivial = some path differs "
+        "nested .gitignore / info/exclude (the verdict computed by the C49 model from the files' contents), empty directories, "
+        "core.fileMode, object format, explicit (seconds, nanoseconds) mtimes of a same-size rewrite against the entry's and the "
+        "index file's (equal / same second / other second x older / equal / newer), skip-worktree entries (file gone, kept, "
+        "changed; staged changes under the flag; a whole directory flagged; neighbours sorting before / after at other depths; "
+        "a flagged .gitignore); non-trivial = some path differs "
         "between two of the maps; distinct by content")
 
 MODE = {"f": 0, "x": 1, "l": 2}
-T1 = pg.T0 + 1
+NS = 10 ** 9
+T1 = (pg.T0 + 1) * NS          # model time stamps are nanosecond counts (Model/StatTime.v: ts_ns)
 
 
-def model_inputs(st):
+def ns(t):
+    return t[0] * NS + t[1]
+
+
+def sof(c):
+    """state of a case, with the effect of its "stamp" step (explicit sub-second time stamps of one tracked file)"""
+    st = pg.state_of(c)
+    sp = c.get("stamp")
+    if sp:
+        m = st["index"][sp["p"]][0]
+        st["wt"][sp["p"]] = (m, bytes.fromhex(sp["c"]), "stamp")
+        st["stamp"] = sp
+    return st
+
+
+# the stamp grid: mtime of the rewritten file relative to the entry's (equal to the nanosecond / same second, later or
+# earlier nanoseconds / another second) x mtime of .git/index relative to the file's
+EMT = (pg.T0 + 7, 500)
+WMTS = [EMT, (EMT[0], 900), (EMT[0], 100), (EMT[0] + 2, 500)]
+IMTS = [lambda w: (w[0], w[1] - 50), lambda w: w, lambda w: (w[0], w[1] + 50), lambda w: (w[0] + 5, 0), lambda w: (w[0] - 3, 0)]
+STAMPS = [(w, f(w)) for w in WMTS for f in IMTS]
+
+
+MODENUM = {"f": 33188, "x": 33261, "l": 40960}
+
+
+def nest(flat):
+    """flat: sorted list of (path string, mode number, data list) -> Coq list of tin (StatusTrie.tin)"""
+    def build(items):
+        out, i = [], 0
+        while i < len(items):
+            comps, m, d = items[i]
+            if len(comps) == 1:
+                out.append('TF "%s" %s %s' % (comps[0].encode().hex(), coq_N(m), coq_list([coq_N(x) for x in d])))
+                i += 1
+            else:
+                j, sub = i, []
+                while j < len(items) and len(items[j][0]) > 1 and items[j][0][0] == comps[0]:
+                    sub.append((items[j][0][1:], items[j][1], items[j][2]))
+                    j += 1
+                out.append('TD "%s" %s' % (comps[0].encode().hex(), build(sub)))
+                i = j
+        return coq_list(["(%s)" % x for x in out])
+    # group by first component whatever the byte order of '/' (a, a-b, a/c): sort by component lists
+    return build(sorted([(p.split("/"), m, d) for p, m, d in flat], key=lambda x: [c.encode() for c in x[0]]))
+
+
+def idx_only_ignores(st):
+    """.gitignore entries flagged skip-worktree whose file is absent from the worktree: path -> staged content"""
+    return {q: c for q, (m, c, f) in st["index"].items()
+            if f == "skip" and m != "l" and q.rsplit("/", 1)[-1] == ".gitignore" and q not in st["wt"]
+            and not any(x.startswith(q + "/") for x in st["wt"])}
+
+
+def git_ignored(st, p):
+    """git's verdict: as pg.ignored, with the skip-worktree .gitignore entries read from the index"""
+    extra = idx_only_ignores(st)
+    if not extra:
+        return pg.ignored(st, p)
+    st2 = dict(st)
+    st2["wt"] = dict(st["wt"])
+    for q, c in extra.items():
+        st2["wt"][q] = ("f", c, "")
+    return pg.ignored(st2, p)
+
+
+def model_parts(st):
+    """-> (tstate expression, index entries expression) of Model/StatusTrie.v"""
     cids = {b"": 0}
 
     def cid(c):
         return cids.setdefault(c, len(cids))
     fmt = 1 if st["fmt"] == "sha256" else 0
-    idxtime = T1 if st["racy"] else T1 + 10 ** 6
-    head = ['("%s", %s, %s)' % (p.encode().hex(), coq_N(MODE[m]), coq_N(cid(c))) for p, (m, c) in sorted(st["head"].items())]
-    index = []
+    sp = st.get("stamp")
+    idxtime = T1 if st["racy"] else T1 + 10 ** 6 * NS
+    if sp:
+        idxtime = ns(sp["imt"])
+    head = [(p, MODENUM[m], [fmt, cid(c)]) for p, (m, c) in sorted(st["head"].items())]
+    index, skip = [], []
     for p, (m, c, f) in sorted(st["index"].items()):
         if f == "ita":
-            index.append('("%s", %s, %s, %s, %s, true)' % (p.encode().hex(), coq_N(MODE[m]), coq_N(0), coq_N(0), coq_N(1)))
+            index.append((p, MODENUM[m], [fmt, 0, 0, 1, 1]))
         else:
-            index.append('("%s", %s, %s, %s, %s, false)' % (p.encode().hex(), coq_N(MODE[m]), coq_N(cid(c)), coq_N(len(c)), coq_N(T1)))
-    wt = []
+            emt = ns(sp["emt"]) if (sp and sp["p"] == p) else T1
+            index.append((p, MODENUM[m], [fmt, cid(c), len(c), emt, 0]))
+        if f == "skip":
+            skip.append(p)
+    wt, ign = [], []
     for p, (m, c, t) in sorted(st["wt"].items()):
         s = st["index"].get(p)
         kept = s is not None and s[0] == m and s[1] == c and t == ""
-        mt = T1 if (kept or t == "samestat") else (T1 + 100 if t == "touch" else T1 + 50)
-        wt.append('("%s", %s, %s, %s, %s, %s, %s)' % (p.encode().hex(), coq_N(MODE[m]), coq_N(cid(c)), coq_N(len(c)), coq_N(mt),
-                                                        coq_bool(pg.ignored(st, p, False)), coq_bool(pg.ignored(st, p, True))))
-    return "(mk_state %s %s %s %s %s %s)" % (coq_N(fmt), coq_bool(st["filemode"]), coq_N(idxtime),
-                                             coq_list(head), coq_list(index), coq_list(wt))
+        mt = T1 if (kept or t == "samestat") else (T1 + 100 * NS if t == "touch" else T1 + 50 * NS)
+        if t == "stamp":
+            mt = ns(sp["wmt"])
+        wt.append((p, MODENUM[m], [cid(c), len(c), mt]))
+        if p.rsplit("/", 1)[-1] == ".gitignore" and m != "l":
+            d = p.split("/")[:-1]
+            ign.append("(%s, \"%s\")" % (coq_list(['"%s"' % x.encode().hex() for x in d]), c.hex()))
+    excl = 'Some "%s"' % st["exclude"].hex() if st["exclude"] else "None"
+    ign_idx = []
+    for q, cont in idx_only_ignores(st).items():
+        ign_idx.append("(%s, \"%s\")" % (coq_list(['"%s"' % x.encode().hex() for x in q.split("/")[:-1]]), cont.hex()))
+    ts = "(mk_tstate %s %s %s %s %s %s %s %s %s (%s))" % (
+        coq_N(fmt), coq_bool(st["filemode"]), coq_N(idxtime), nest(head), nest(index), nest(wt),
+        coq_list(['"%s"' % q.encode().hex() for q in skip]), coq_list(ign), coq_list(ign_idx), excl)
+    # idx.Entries order: by path bytes
+    ents = coq_list(["(%s, %s, %s)" % (coq_list(['"%s"' % x.encode().hex() for x in p.split("/")]), coq_N(m),
+                                       coq_list([coq_N(x) for x in d]))
+                     for p, m, d in sorted(index, key=lambda e: e[0].encode())])
+    return ts, ents
+
+
+def model_inputs(st):
+    ts, ents = model_parts(st)
+    return "%s (mk_entries %s)" % (ts, ents)
 
 
 def deviation(st, p):
@@ -68,6 +173,25 @@ def deviation(st, p):
     link = lambda e: e is not None and e[0] == "l"
     if i is not None and i[2] == "ita":
         return "ita"
+    # skip-worktree entries (sparse checkout)
+    def all_skip_dir(q):
+        comps = q.split("/")
+        for k in range(1, len(comps)):
+            d = "/".join(comps[:k])
+            below = [e for x, e in st["index"].items() if x.startswith(d + "/")]
+            if below and all(e[2] == "skip" for e in below):
+                return True
+            if st["index"].get(d, ("", b"", ""))[2] == "skip":
+                return True       # a flagged file entry whose path is a directory now: passed over with all it holds
+        return False
+    if i is not None and i[2] == "skip" and (h is None or h[:2] != i[:2]):
+        return "skip-staged-invisible"
+    if i is None and h is not None and all_skip_dir(p) and (w is None or pg.ignored(st, p)):
+        return "skip-staged-invisible"
+    if i is None and w is not None and all_skip_dir(p) and not pg.ignored(st, p):
+        return "skip-dir-hides-untracked"
+    if i is None and w is not None and git_ignored(st, p) != pg.ignored(st, p):
+        return "skip-gitignore-from-index"
     if i is None and w is not None and pg.ignored(st, p, False) != pg.ignored(st, p, True):
         return "info-exclude"
     if h is not None and i is None and w is not None and not pg.ignored(st, p):
@@ -76,6 +200,12 @@ def deviation(st, p):
         return "typechange"
     if i is not None and w is not None:
         kept = i[0] == w[0] and i[1] == w[1] and w[2] == ""
+        if w[2] == "stamp":
+            sp = st["stamp"]
+            # same size, mtime restored to the nanosecond, index file newer: the metadata shortcut applies
+            if ns(sp["wmt"]) == ns(sp["emt"]) and ns(sp["wmt"]) < ns(sp["imt"]) and len(i[1]) == len(w[1]) and i[1] != w[1]:
+                return "samestat"
+            return None
         if not st["filemode"] and w[0] == "x":
             return "filemode-false-exec"
         if w[2] == "samestat" and not st["racy"] and i[0] == w[0] and len(i[1]) == len(w[1]):
@@ -95,18 +225,22 @@ def parse_recs(recs):
 class Main(Suite):
     name = "main"
     go_cmd = "c27"
-    coq_imports = "From GoGit Require Import Model.Status Spec.GitStatus."
-    quick_n = 130
+    coq_imports = "From GoGit Require Import Model.Status Model.StatusTrie Spec.GitStatus Spec.GitStatusTrie."
+    quick_n = 170
     thorough_n = 500
     coq_chunk = 100
 
     def gen(self, rng, n, tier):
         cases = []
         feats = ["ita", "typechange", "samestat", "sha256", "filemode", "stagedel"]
+        j = 0
         for k in range(n):
             # at most one deviation-prone ingredient per case, so that every disagreement has one cause
             r = rng.random()
-            f = ("ignore", "racy") if r < 0.45 else ("ignore", "racy", feats[k % len(feats)])
+            special = k % 11 == 5 or k % 6 == 3 or k % 13 == 7 or k % 6 == 1      # the dedicated buckets below
+            f = ("ignore", "racy") if r < 0.45 else ("ignore", "racy", feats[j % len(feats)])
+            if not special:
+                j += 1
             st = pg.gen_state(rng, features=f)
             c = pg.recipe(st)
             c["bucket"] = "plain" if len(f) == 2 else f[2]
@@ -119,14 +253,78 @@ class Main(Suite):
                       "wt": {"r": (m, b, "samestat"), "k": ("f", b"keep\n", "")}}
                 c = pg.recipe(st)
                 c["bucket"] = "racy-samestat"
+            if k % 6 == 3:
+                # skip-worktree entries: file gone (the sparse-checkout shape), still there, or changed; staged
+                # changes under the flag; untracked neighbours sorting before / after, at other depths
+                st = pg.gen_state(rng, features=("ignore", "racy"))
+                st["exclude"] = b""
+                st["wt"].pop("q.ex", None)
+                cand = sorted(st["index"])
+                shape = (k // 6) % 4
+                if shape == 3 or not cand:
+                    # a skipped file next to unrelated files on both sides, and below a shared directory
+                    a, b2 = b"1\n", b"2\n"
+                    st["head"] = {"d/m": ("f", a), "e": ("f", a), "d2/k": ("f", a)}
+                    st["index"] = {"d/m": ("f", a, ""), "e": ("f", rng.choice([a, b2]), "skip"), "d2/k": ("f", a, "skip")}
+                    st["wt"] = {"d/m": ("f", a, "")}
+                    for q in rng.sample(["b", "d/e", "d/z", "e", "f", "d2/k", "d2/u", "d/a"], rng.choice([2, 3, 4])):
+                        st["wt"][q] = ("f", b2, "")
+                    st["dirs"] = []
+                else:
+                    for q in rng.sample(cand, min(len(cand), rng.choice([1, 2, 3]))):
+                        m, cont, _ = st["index"][q]
+                        st["index"][q] = (m, cont, "skip")
+                        r = rng.random()
+                        if r < 0.6:
+                            st["wt"].pop(q, None)
+                            for x in [x for x in st["wt"] if x.startswith(q + "/")]:
+                                del st["wt"][x]
+                        elif r < 0.8 and q in st["wt"] and m != "l":
+                            st["wt"][q] = (m, b"changed under skip\n", "")
+                    if shape == 1:
+                        # every entry of one directory skipped
+                        ds = sorted({q.rsplit("/", 1)[0] for q in st["index"] if "/" in q})
+                        if ds:
+                            d = rng.choice(ds)
+                            for q in [q for q in st["index"] if q.startswith(d + "/")]:
+                                st["index"][q] = st["index"][q][:2] + ("skip",)
+                c = pg.recipe(st)
+                c["bucket"] = "skip"
+            if k % 13 == 7:
+                # an excluded directory that is entered because it holds tracked files: nothing below it can be
+                # re-included, by a negation at the root or by its own .gitignore; tracked files stay visible
+                d = rng.choice(["d", "build"])
+                t1, t2, u1, u2 = rng.sample(["e", "f", "loc", "top", "y.o", "t.tmp"], 4)
+                a, b2 = b"1\n", b"2\n"
+                root = rng.choice([d + "/\n!" + d + "/" + u1 + "\n", d + "/\n!" + u1 + "\n", d + "\n!" + d + "/*\n", "/" + d + "/\n!*\n"]).encode()
+                st = {"fmt": "sha1", "filemode": True, "racy": False, "exclude": b"", "dirs": [],
+                      "head": {d + "/" + t1: ("f", a), d + "/" + t2: ("f", a), "k": ("f", a)},
+                      "index": {d + "/" + t1: ("f", a, ""), d + "/" + t2: ("f", rng.choice([a, b2]), ""), "k": ("f", a, "")},
+                      "wt": {".gitignore": ("f", root, ""), d + "/" + t1: ("f", rng.choice([a, b2]), ""), "k": ("f", a, ""),
+                             d + "/" + u1: ("f", b2, ""), d + "/sub/" + u2: ("f", b2, "")}}
+                if rng.random() < 0.5:
+                    st["wt"][d + "/.gitignore"] = ("f", ("!" + u1 + "\n!sub/\n").encode(), "")
+                c = pg.recipe(st)
+                c["bucket"] = "excluded-dir"
+            if k % 6 == 1:
+                # same-size rewrite of a tracked file with explicit sub-second time stamps (see STAMPS)
+                a, b = rng.choice([(b"11\n", b"22\n"), (b"1\n", b"2\n"), (b"x", b"y"), (b"same\n", b"same\n")])
+                m = rng.choice(["f", "x"])
+                w, i = STAMPS[(k // 6) % len(STAMPS)]
+                st = {"fmt": "sha1", "filemode": True, "racy": False, "exclude": b"", "dirs": [],
+                      "head": {"r": (m, a), "k": ("f", b"keep\n")}, "index": {"r": (m, a, ""), "k": ("f", b"keep\n", "")},
+                      "wt": {"r": (m, a, ""), "k": ("f", b"keep\n", "")}}
+                c = pg.recipe(st)
+                c["stamp"] = {"p": "r", "c": b.hex(), "emt": list(EMT), "wmt": list(w), "imt": list(i)}
+                c["bucket"] = "stamp"
             cases.append(c)
         return cases
 
     def model_expr(self, c):
-        return "c27_run %s" % model_inputs(pg.state_of(c))
+        return "c27_trie_run %s" % model_inputs(sof(c))
 
     def nontrivial(self, c):
-        st = pg.state_of(c)
+        st = sof(c)
         h = {p: v[:2] for p, v in st["head"].items()}
         i = {p: v[:2] for p, v in st["index"].items()}
         w = {p: v[:2] for p, v in st["wt"].items()}
@@ -156,7 +354,7 @@ class Main(Suite):
     def finding_class(self, c, reason, reply):
         if "@@" not in reason:
             return None
-        st = pg.state_of(c)
+        st = sof(c)
         classes = [deviation(st, p) for p in reason.split("@@", 1)[1].split("\x1f")]
         if classes and all(k is not None for k in classes):
             return classes[0]
@@ -164,7 +362,7 @@ class Main(Suite):
 
     def extra(self, ctx, cases, impl, model):
         # C-git: S (Spec/GitStatus) against the git binary
-        exprs = ["c27_git_run %s" % model_inputs(pg.state_of(c)) for c in cases]
+        exprs = ["c27_git_trie_run %s" % model_parts(sof(c))[0] for c in cases]
         outs = ctx.coq_eval(self.coq_imports, exprs, chunk=100)
         bad = 0
         sym = {" ": "unmod", "?": "untracked"}
